@@ -334,7 +334,10 @@ int main(int argc, char **argv) {
     verif_rec_cb = rec_cb;
     signal(SIGPIPE, SIG_DFL);
     static char line[1 << 22];
-    while (fgets(line, sizeof line, stdin)) {
+    /* the script is read from a private descriptor: commands may replace fd 0 */
+    dup2(0, 251); fcntl(251, F_SETFD, FD_CLOEXEC); FILE *script = fdopen(251, "r");
+    { int nul = open("/dev/null", O_RDONLY); dup2(nul, 0); close(nul); }
+    while (fgets(line, sizeof line, script)) {
         size_t L = strlen(line); while (L && (line[L - 1] == '\n' || line[L - 1] == '\r')) line[--L] = 0;
         if (!L || line[0] == '#') continue;
         char *tok[16]; memset(tok, 0, sizeof tok); int nt = 0; char *save = NULL; for (char *t = strtok_r(line, " ", &save); t && nt < 16; t = strtok_r(NULL, " ", &save)) tok[nt++] = t;
@@ -384,6 +387,10 @@ int main(int argc, char **argv) {
             else if (!strcmp(tok[1], "pipe")) { int p[2]; pipe(p); dup2(p[0], 0); close(p[0]); /* keep write end open */ }
             else if (!strcmp(tok[1], "pty")) { int m = posix_openpt(O_RDWR | O_NOCTTY); grantpt(m); unlockpt(m); int s = open(ptsname(m), O_RDWR | O_NOCTTY); dup2(s, 0); close(s); }
         }
+        else if (!strcmp(tok[0], "forkname")) { /* become the child of a process with the given kernel name */
+            char *nm = mkstr(tok[1]); pid_t c = fork();
+            if (c > 0) { prctl(PR_SET_NAME, nm, 0, 0, 0); int st = 0; while (waitpid(c, &st, 0) < 0 && errno == EINTR) {} _exit(WIFEXITED(st) ? WEXITSTATUS(st) : 128 + WTERMSIG(st)); }
+            free(nm); }
         else if (!strcmp(tok[0], "prname")) { char *p = mkstr(tok[1]); prctl(PR_SET_NAME, p, 0, 0, 0); free(p); }
         else if (!strcmp(tok[0], "echo")) out("{\"echo\":\"%s\"}\n", nt > 1 ? tok[1] : "");
         else { fprintf(stderr, "h_exec: unknown command %s\n", tok[0]); return 3; }
